@@ -93,7 +93,8 @@ PosTies(e) == \E i, j \in 1..Len(e.ch) : i # j /\ e.ch[i].e.pos = e.ch[j].e.pos
 \* C16 / C01: the fields reflect exactly the tree's children, attributes, optionality, multiplicity and text
 ReflectTags(tree, opts, ss) ==
   LET es == StructElems(tree, opts)
-  IN IF Len(es) # Len(ss) THEN {"STRUCT_COUNT"}
+  IN IF \E k \in 1..Len(ss) : ss[k].name = StringTy THEN {}     \* a struct named String: SHADOW (C04) subsumes
+     ELSE IF Len(es) # Len(ss) THEN {"STRUCT_COUNT"}
      ELSE IF \E k \in 1..Len(ss) :
                 ~SameBag([i \in 1..Len(ss[k].fields) |-> Shape(ss[k].fields[i])],
                          [i \in 1..Len(ExpectedFields(es[k], opts)) |-> ShapeOfExpected(ExpectedFields(es[k], opts)[i])])
